@@ -1756,6 +1756,15 @@ class ConcFamily:
         p = ctx.run_vh(["conc-run", "-runs", str(runs), "-seed", str(ctx.seed), "-out", trace], race=True, timeout=3000)
         races = p.stderr.count("WARNING: DATA RACE")
         if p.returncode not in (0, 66):
+            crash = vlib.gribigo_panic(p.stderr)
+            if crash:
+                # the process running the server died with a panic raised inside gribigo: "never ... panics"
+                rp = os.path.join(vlib.ROOT, "replays", f"C11-crash-{vlib.sha(crash[:3000])}.txt")
+                open(rp, "w").write(crash)
+                res.violations.append({"replay": rp, "what": "the process running concurrent sessions against one server died with a panic raised inside openconfig/gribigo: " + crash.splitlines()[0][:200]})
+                res.coverage = {"states": mc.distinct, "transitions": mc.generated, "traces_validated_against_impl": 0, "evaluations": 0, "distinct_nontrivial": 0,
+                                "samples": [["crashed"]], "rule": "crashed"}
+                return res
             raise Infra(f"vh conc-run failed rc={p.returncode}: " + p.stdout[-1500:] + p.stderr[-3000:])
         info = {}
         for line in p.stdout.strip().splitlines():
